@@ -310,8 +310,28 @@ def offaxis_case(rng, tries=300):
     return None
 
 
+def offset_case(rng, tier, k):
+    """large common offset (2^12 … 2^20) on structured VOGP / ε-PAL cases: baits (victim outside the pessimistic
+    set with a tight would-be witness), acute-corner pairs, slack-boundary data"""
+    kind = k % 4
+    if kind == 0:
+        base = bait_case(rng, "discard", ALGS[(k // 4) % 2])
+    elif kind == 1:
+        base = bait_case(rng, "cover", ALGS[(k // 4) % 2])
+    elif kind == 2:
+        base = corner_case(rng)
+    else:
+        base = gen_case(rng, tier, ALGS[(k // 4) % 2], rng.choice(["slack-boundary", "front", "near-facet", "ties"]))
+        base["batch"] = rng.choice([1, 2])
+    return None if base is None else c01.with_offset(rng, base)
+
+
 def gen(ctx):
     rng = ctx.rng
+    for k in range(ctx.n(12, 240)):
+        c = offset_case(rng, ctx.tier, k)
+        if c is not None:
+            yield c
     for _ in range(ctx.n(8, 160)):
         c = offaxis_case(rng)
         if c is not None:
@@ -415,7 +435,10 @@ def run_case(ctx, case):
 
     core_rec = c01_core.recorder(case)    # INTEGRATION: the whole run through Model/Core.lean (c01_core.py)
 
+    traj = []
+
     def on_round(alg, adv, before, active, t):
+        traj.append((sorted(alg.S), sorted(alg.P), []))
         decided_round(ctx, case, alg, adv, before, t, fstate)
         if core_rec is not None:
             core_rec.on_round(alg, adv, before, active, t)
@@ -423,6 +446,7 @@ def run_case(ctx, case):
     res = c01.run_history(ctx, case, cap, on_round=on_round)
     if core_rec is not None and not res["status"].startswith("crash"):
         core_rec.finish(ctx, case, res)
+    c01.translation_twin_check(ctx, case, cap, traj, res)
     st = res["status"]
     ctx.count("status_" + (st if st.startswith("skipped") else st.split(":")[0]))
     ctx.count("rounds_total", res.get("rounds", 0))
